@@ -85,6 +85,7 @@ def run(ctx, rep):
     m1s(F, rep, "M1s")
     _m2_m3(F, rep)
     m7(F, rep)
+    m8(F, rep)
     from . import sib
     sib.m4(F, rep)
     # M6: the block writer that reconstruction ends in (shared with C07/W2): reference tokens keep their distance,
@@ -137,6 +138,29 @@ def m7(F, rep, rule="M7"):
                     "%s(%s) with constant %d: the clamped value can be as large as %s" % (m.group(1), ", ".join(flow.describe(b, a)[:80] for a in ops), k, ub))
     rep.add(rule, "decoded-values-used-as-read", True, "", "%d decode sites in %d reconstruction functions, %d constant clamps examined" % (n_dec, len(defs), n_cl))
     rep.floor(rule, "decode-sites-on-reconstruction-path", n_dec, 15)
+
+
+def m8(F, rep, rule="M8"):
+    """recompress_deflate_stream has one way to succeed: through the reconstruction.  Every non-error result is the Ok
+    payload of decode_mispredictions (behind its `?`), so no input-dependent shortcut (`if plain_text.is_empty() { return
+    Ok(vec![]) }`) can answer for a stream the analysis accepted."""
+    from .. import err
+    b = F.body(R_ENTRY)
+    where = "%s:%s" % (b.file, b.line)
+    prods = err.result_producers(b, F)
+    dm = [(bb, t) for bb, t in b.calls() if strip_generics(callee_def(t)).endswith("process::decode_mispredictions")]
+    ok = len(dm) == 1 and bool(prods)
+    why = []
+    if ok:
+        ti = err.try_info(b, dm[0][1]["dest"]["l"])
+        for pb, what in prods:
+            dom = ti is not None and any(b.edge_dominates(a, s2, pb) for a, s2 in ti["continue_edges"])
+            val = [flow.describe_rvalue(b, s["r"], names=False) for s in b.stmts(pb) if s.get("k") == "assign" and s["p"]["l"] == 0 and not s["p"]["p"]]
+            good_val = any(re.match(r"^Ok\{branch\((preflate_rs::)?process::decode_mispredictions\(", v) for v in val)
+            if not (dom and good_val):
+                ok = False
+                why.append("%s at %s is not the result of the reconstruction" % (what, b.where(pb)))
+    rep.add(rule, "ok-only-through-reconstruction", ok, where, "; ".join(why) if why else "%d result site(s), each behind decode_mispredictions(..)? and returning its payload" % len(prods))
 
 
 def _m2_m3(F, rep):
